@@ -266,6 +266,14 @@ def fv_fstr(*parts):
     return "".join(fmt(*p_) if isinstance(p_, tuple) else p_ for p_ in parts)
 
 
+SYM_SET_MODULES = set()  # names of modules in which set displays / comprehensions build fv.permset.PermSet
+
+
+def fv_set(s):
+    from fv import permset
+    return permset.PermSet(s)
+
+
 class _JoinRewriter(ast.NodeTransformer):
     """'<literal>'.join(x)  ->  fv_join_hook('<literal>', x): str.join is a C method that rejects proxies"""
 
@@ -294,6 +302,17 @@ class _JoinRewriter(ast.NodeTransformer):
             node.format_spec = fs
         return node
 
+    symsets = False
+
+    def visit_SetComp(self, node):
+        self.generic_visit(node)
+        if not self.symsets:
+            return node
+        self.hits += 1
+        return ast.copy_location(ast.Call(func=ast.Name(id="fv_set_hook", ctx=ast.Load()), args=[node], keywords=[]), node)
+
+    visit_Set = visit_SetComp
+
     def visit_Compare(self, node):
         self.generic_visit(node)
         if (len(node.ops) == 1 and isinstance(node.ops[0], (ast.In, ast.NotIn)) and isinstance(node.comparators[0], ast.Constant)
@@ -320,11 +339,13 @@ def _rewritten(fn, clsname=None):
         src = textwrap.dedent(inspect.getsource(fn))
     except (OSError, TypeError):
         return None
-    if (".join(" not in src and " in \"" not in src and " in '" not in src and 'f"' not in src and "f'" not in src) \
-            or "super()" in src or fn.__closure__:
+    symsets = fn.__module__ in SYM_SET_MODULES
+    if (".join(" not in src and " in \"" not in src and " in '" not in src and 'f"' not in src and "f'" not in src
+            and not (symsets and "{" in src)) or "super()" in src or fn.__closure__:
         return None
     tree = ast.parse(src)
     rw = _JoinRewriter()
+    rw.symsets = symsets
     tree = rw.visit(tree)
     if not rw.hits:
         return None
@@ -342,6 +363,7 @@ def _rewritten(fn, clsname=None):
     g["fv_join_hook"] = fv_join
     g["fv_in_hook"] = fv_in
     g["fv_fstr_hook"] = fv_fstr
+    g["fv_set_hook"] = fv_set
     ns = {}
     code = compile(tree, inspect.getsourcefile(fn) or "<rewritten>", "exec")
     exec(code, g, ns)
